@@ -40,7 +40,7 @@ func sameFloat(a, b float64) bool {
 }
 
 // compareAll checks every accessor against the map and strconv.
-func c20Compare(c *Ctx, ctx *types.Context, m map[string]string, trail *[]string) bool {
+func c20Compare(c *Ctx, ctx *types.Context, m map[string]string, trail *[]string, first ...string) bool {
 	bad := func(f string, a ...any) bool {
 		c.Violate(fmt.Sprintf(f, a...), map[string]any{"ops": *trail, "model": fmtParams(m)})
 		return false
@@ -59,7 +59,7 @@ func c20Compare(c *Ctx, ctx *types.Context, m map[string]string, trail *[]string
 		return bad("Range visits %s, captured %s", fmtParams(seen), fmtParams(m))
 	}
 	notExists := types.ErrParamNotExists()
-	keys := append([]string{}, c20Keys...)
+	keys := append(append([]string{}, first...), c20Keys...) // the key just written/deleted is looked up first: the lookup right before the write was for it too
 	for _, k := range keys {
 		c.Eval()
 		want, has := m[k]
@@ -156,33 +156,84 @@ func c20Traffic(r *ref.R) {
 	}
 }
 
+// c20Numeric: digit strings around and beyond the 64-bit ranges (18-24 digits, optional sign / leading zeros),
+// and decimal / exponent forms; strconv is the oracle for all of them.
+func c20Numeric(r *ref.R) string {
+	n := r.Range(17, 24)
+	b := make([]byte, 0, n+2)
+	switch r.Intn(6) {
+	case 0:
+		b = append(b, '-')
+	case 1:
+		b = append(b, '+')
+	case 2:
+		b = append(b, '0', '0')
+	}
+	b = append(b, byte('1'+r.Intn(9)))
+	for i := 1; i < n; i++ {
+		b = append(b, byte('0'+r.Intn(10)))
+	}
+	switch r.Intn(8) {
+	case 0:
+		return string(b) + "." + string(byte('0'+r.Intn(10)))
+	case 1:
+		return string(b[:len(b)/2]) + "e" + fmt.Sprint(r.Intn(400))
+	}
+	return string(b)
+}
+
 func runC20(c *Ctx) {
 	r := c.R
 	var trail []string
 	ctx := types.NewContext()
+	if r.Chance(1, 3) {
+		// the object the pool's New function makes when the pool is empty: it never owned a parameter map
+		ctx.Destroy()
+		ctx = &types.Context{}
+		trail = append(trail, "ctx = &types.Context{}")
+		c.Class("fresh_context_that_never_owned_a_map")
+	}
 	m := map[string]string{}
 	if ctx.Count() != 0 {
 		c.Violate("a context from the pool does not start empty", nil)
 		return
 	}
+	if !c20Compare(c, ctx, m, &trail) { // every lookup answers "absent" before the first Set
+		return
+	}
 	edge := false
 	for i := 0; i < 60 && !c.Violated(); i++ {
+		touched := ref.Pick(r, c20Keys)
 		switch x := r.Intn(20); {
 		case x < 10:
 			k, v := ref.Pick(r, c20Keys), ref.Pick(r, c20Values)
 			if r.Chance(1, 6) {
 				v = string(r.Bytes(r.Range(0, 6)))
+			} else if r.Chance(1, 4) {
+				v = c20Numeric(r)
+			}
+			if r.Bool() { // look the key up, then write it (what a handler does)
+				if got, ok := ctx.Get(k); ok != (func() bool { _, h := m[k]; return h })() || got != m[k] {
+					c.Violate(fmt.Sprintf("Get(%q)=%q,%v before a Set", k, got, ok), map[string]any{"ops": trail, "model": fmtParams(m)})
+					return
+				}
+				trail = append(trail, fmt.Sprintf("Get(%q)", k))
 			}
 			ctx.Set(k, v)
 			m[k] = v
+			touched = k
 			trail = append(trail, fmt.Sprintf("Set(%q,%q)", k, v))
 			if _, err := strconv.ParseInt(v, 10, 64); err != nil {
 				edge = true
 			}
 		case x < 13:
 			k := ref.Pick(r, c20Keys)
+			if r.Bool() {
+				ctx.Exists(k)
+			}
 			ctx.Delete(k)
 			delete(m, k)
+			touched = k
 			trail = append(trail, fmt.Sprintf("Delete(%q)", k))
 		case x < 15:
 			ctx.Reset()
@@ -225,7 +276,7 @@ func runC20(c *Ctx) {
 		default:
 			// nothing: compare again
 		}
-		if !c20Compare(c, ctx, m, &trail) {
+		if !c20Compare(c, ctx, m, &trail, touched) {
 			return
 		}
 	}
